@@ -63,6 +63,19 @@ type SinkDecl struct {
 	Line  int
 }
 
+// ScopeDecl: row sources partitioned by an owner column (see scope.go).
+type ScopeDecl struct {
+	Recv        string
+	Tables      []string
+	Functions   []string
+	Column      string
+	TextResults []string // closure specs whose implementers return (text, bound arguments, ...)
+	Owner       string   // pkg.Type.field
+	Props       []string
+	File        string
+	Line        int
+}
+
 // TypeDecl: typeinv / typespec / globalinv declarations.
 type TypeDecl struct {
 	Kind  string // typeinv | typespec | globalinv
@@ -167,6 +180,7 @@ type ContractSet struct {
 	pkgUFuns   map[string]*UFun
 	StrPreds   []string
 	Sinks      []*SinkDecl
+	Scopes     []*ScopeDecl
 	TypeDecls  []*TypeDecl
 	pkgOf      map[string]*types.Package // contract name -> package of the file declaring it
 }
@@ -414,6 +428,42 @@ func (cs *ContractSet) parseLines(fname string, lines []struct {
 				sd.Props = rePropID.FindAllString(full[len(rest):], -1)
 			}
 			cs.Sinks = append(cs.Sinks, sd)
+			cur, curLemma = nil, nil
+		case "scoped":
+			// scoped <recv> tables=a,b functions=f,g column=ledger owner=pkg.Type.field // Cxx
+			full := rest
+			rest = stripComment(rest)
+			fields := strings.Fields(rest)
+			if len(fields) < 2 {
+				cs.errf(fname, l.line, "scoped: expected '<recv type> key=value ...'")
+				continue
+			}
+			sd := &ScopeDecl{Recv: fields[0], File: fname, Line: l.line}
+			for _, f := range fields[1:] {
+				kv := strings.SplitN(f, "=", 2)
+				if len(kv) != 2 {
+					cs.errf(fname, l.line, "scoped: bad field %q", f)
+					continue
+				}
+				switch kv[0] {
+				case "tables":
+					sd.Tables = strings.Split(kv[1], ",")
+				case "functions":
+					sd.Functions = strings.Split(kv[1], ",")
+				case "column":
+					sd.Column = kv[1]
+				case "owner":
+					sd.Owner = kv[1]
+				case "textresults":
+					sd.TextResults = strings.Split(kv[1], ",")
+				default:
+					cs.errf(fname, l.line, "scoped: unknown field %q", kv[0])
+				}
+			}
+			if len(full) > len(rest) {
+				sd.Props = rePropID.FindAllString(full[len(rest):], -1)
+			}
+			cs.Scopes = append(cs.Scopes, sd)
 			cur, curLemma = nil, nil
 		case "captures":
 			if cur == nil {
